@@ -126,6 +126,20 @@ def run(ctx):
         h.append(('load', False))
         groups.setdefault((rng.choice(lc.VARIANTS), rng.random() < 0.5), []).append(h)
     n = 0
+    # the same directory configured twice ("each configured policy directory in configured order"):
+    # policy_dirs = d1, d2, d1, d3 - d1's files are applied again after d2's
+    dup = {}
+    for key, hs in sorted(groups.items()):
+        for h in hs:
+            if rng.random() < 0.12 and any(op[0] == 'write' and op[1] == 'd2/a' for op in h) and any(op[0] == 'write' and op[1].startswith('d1/') for op in h):
+                dup.setdefault(key, []).append(h)
+    for (variant, en), hs in sorted(dup.items()):
+        traces = [lc.run_history(rng, variant, en, h, dup_dirs=True) for h in hs]
+        n += len(traces)
+        for idx, why, step in lc.judge_traces(ctx, variant, en, traces, dup_dirs=True):
+            ctx.violation('layering-dirs-repeated:%s' % why, 'with a policy directory configured twice the effective policy is not the layering in configured order: ' + why,
+                          {'variant': variant, 'enforce_new_defaults': en, 'why': why, 'policy_dirs': 'd1, d2, d1, d3', 'trace': traces[idx]})
+    ctx.cover['configurations_with_repeated_directory'] = sum(len(v) for v in dup.values())
     for (variant, en), hs in sorted(groups.items()):
         traces = [lc.run_history(rng, variant, en, h) for h in hs]
         n += len(traces)
